@@ -216,27 +216,31 @@ def lookup (c : Cfg) (s : State) (k : Nat) : State × Option Entry :=
 
 /-! ### Automatic removals (inputs, accepted only if justified) — C07 -/
 
+/-- is the automatic removal of the physically present entry `e`, reported with `ev.cause`, justified? -/
+def evictOk (cfg : Cfg) (s : State) (ev : Event) (e : Entry) : Bool :=
+  match ev.cause with
+  | .expiration => !e.liveAt s.now                    -- only an entry whose deadline has passed
+  | .overflow =>
+      match s.maximum with
+      | none => false                                 -- an unbounded cache never reports Overflow
+      | some mx =>
+        cfg.bounded
+        && e.liveAt s.now                             -- an already expired entry must be reported as Expiration
+        && e.weight != 0                              -- zero-weight entries are pinned
+        && (decide (s.totalWeight > mx) || decide (e.weight > mx))
+  | _ => false
+
+/-- the state after the removal: entry gone, its in-flight load cancelled, eviction counted -/
+def evictApply (s : State) (ev : Event) (e : Entry) : State :=
+  ({ s with m := erase s.m ev.key,
+            stats := { s.stats with evictions := s.stats.evictions + 1,
+                                    evictionWeight := s.stats.evictionWeight + e.weight } }).clearInflight ev.key
+
 /-- accept an automatic removal of `(k, v)` reported by the cache with cause `c` -/
 def evict (cfg : Cfg) (s : State) (ev : Event) : Option State :=
   match s.phys ev.key with
   | none => none
-  | some e =>
-    if e.val != ev.val then none else
-    let s' : State := { s with m := erase s.m ev.key,
-                               stats := { s.stats with evictions := s.stats.evictions + 1,
-                                                       evictionWeight := s.stats.evictionWeight + e.weight } }
-    let s' := s'.clearInflight ev.key
-    match ev.cause with
-    | .expiration => if e.liveAt s.now then none else some s'
-    | .overflow =>
-        match s.maximum with
-        | none => none
-        | some mx =>
-          if !cfg.bounded then none
-          else if !e.liveAt s.now then none      -- an already expired entry must be reported as Expiration (C06)
-          else if e.weight == 0 then none        -- zero-weight entries are pinned
-          else if s.totalWeight > mx || e.weight > mx then some s' else none
-    | _ => none
+  | some e => if e.val == ev.val && evictOk cfg s ev e then some (evictApply s ev e) else none
 
 /-! ### Public operations (single atomic step each) -/
 
@@ -366,6 +370,19 @@ def startCall (s : State) (k cid : Nat) : State × Bool :=
   | some _ => (s, false)
   | none => ({ s with inflight := (k, cid) :: s.inflight }, true)
 
+/-- duration the calculator returns after a failed reload (0 = keep the current refresh deadline) -/
+def refFailDur (c : Cfg) (k : Nat) : Int :=
+  match c.refresh with
+  | .custom => c.refFail.get k
+  | _ => 0
+
+/-- a failed reload: the value and its expiration stay; only the refresh deadline may move -/
+def applyReloadFailure (c : Cfg) (s : State) (k : Nat) : State :=
+  match s.phys k with
+  | some e =>
+    if refFailDur c k > 0 then { s with m := put s.m k { e with ref := satAdd s.now (refFailDur c k) } } else s
+  | none => s
+
 /-- completion of call `cid` for `k` at the current clock: the outcome is installed only if the
     call is still the registered one (no write, invalidation or eviction of `k` since it
     started) — C09; `fake` calls (keys a bulk loader volunteered) always install -/
@@ -377,19 +394,29 @@ def finishCall (c : Cfg) (s : State) (k cid : Nat) (isRefresh fake : Bool) (o : 
   | .notFound _ =>
       if correct then remove s k .invalidation else (s, [])
   | .err _ | .panic =>
-      -- failed reload: the value and its expiry stay; the refresh deadline follows the calculator
-      if isRefresh then
-        match s.phys k with
-        | some e =>
-          let d := match c.refresh with | .custom => c.refFail.get k | _ => 0
-          if d > 0 then ({ s with m := put s.m k { e with ref := satAdd s.now d } }, []) else (s, [])
-        | none => (s, [])
-      else (s, [])
+      (if isRefresh then applyReloadFailure c s k else s, [])
   | .ok v =>
       if correct then
         let wk := if isRefresh && (s.live k).isSome then WriteKind.reload else .normal
         write c s k v wk
       else (s, [])
+
+/-! ### Persistence (C19) -/
+
+/-- a saved entry: key, value, weight, expiration, refresh deadline -/
+abbrev Saved := Nat × Nat × Nat × Int × Int
+
+/-- the deadline LoadCacheFrom restores for a saved deadline: the remaining duration (at least 1 ns) from now -/
+def restoredDeadline (now saved : Int) : Int := satAdd now (max 1 (saved - now))
+
+/-- the entries LoadCacheFrom attempts to load: file order, while the loaded weight is below the limit, entries
+    already dead at load time skipped -/
+def loadableFrom (withExp : Bool) (lim : Nat) (now : Int) : Nat → List Saved → List Saved
+  | _, [] => []
+  | size, e :: rest =>
+    if size ≥ lim then []
+    else if withExp && decide (e.2.2.2.1 ≤ now) then loadableFrom withExp lim now size rest
+    else e :: loadableFrom withExp lim now (size + e.2.2.1) rest
 
 /-- is the live entry `e` due for refresh at `now`? -/
 def Entry.staleAt (e : Entry) (now : Int) : Bool := e.ref ≤ now
